@@ -129,7 +129,7 @@ CHECKS['C16'] = dict(
         'break-even; net profit = sum of PnL = gross profit + gross loss; longs + shorts = total and the two percentages sum to 100; win rate lies in [0,1] and '
         'win_rate*(W+L) = W; expectancy*(W+L) = net profit (all four win/loss cases); the largest win / loss bound the winners / losers and are the PnL of one of them; the winning (losing) streak is the length of the longest block of consecutive winners '
         '(losers) - no block is longer, one is as long - and the current streak the signed run at the end; the drawdown at sample k is equity_k / max(equity_0..k) - 1, and for every positive equity series the '
-        'maximum drawdown is one of these values and lies in (-1, 0]. The definitions are evaluated in Coq against services/metrics.trades on synthetic trade lists (22 reported values each); '
+        'maximum drawdown is one of these values and lies in (-1, 0]; every counting and summing metric (total, winners, losers, net/gross profit and loss, fee, long/short counts, win rate, averages, expectancy) is the same for every permutation of the trade list, and the average win (loss) lies between 0 and the largest win (loss). The definitions are evaluated in Coq against services/metrics.trades on synthetic trade lists (22 reported values each); '
         'the ratio metrics are compared with an independent recomputation of their standard definitions; the equity samples of real multi-day sessions are recomputed '
         'independently at the moment they are taken.',
    note='Trusted: Coq kernel + vm_compute; hand-written Model/Metrics.v tied by value correspondence; harness/c16.py, driver.py, engine.py. Sharpe/Sortino/Calmar/Omega/annual '
